@@ -1,14 +1,17 @@
 package work
 
 import (
+	"bytes"
 	"crypto"
 	"crypto/sha512"
 	"fmt"
 
+	"github.com/oasisprotocol/curve25519-voi/curve"
 	"github.com/oasisprotocol/curve25519-voi/curve/scalar"
 	"github.com/oasisprotocol/curve25519-voi/primitives/ed25519"
 	"github.com/oasisprotocol/curve25519-voi/primitives/ed25519/extra/cache"
 	"github.com/oasisprotocol/curve25519-voi/primitives/ed25519/extra/ecvrf"
+	"github.com/oasisprotocol/curve25519-voi/primitives/x25519"
 )
 
 // Second batch of C19 entry points: constructors, default-option forms, output
@@ -151,6 +154,73 @@ func c19MoreTargets() []c19Target {
 				return c19Res{ok: res[1]}
 			}})
 	}
+	// scalar multiplication entry points fed with scalars built from untrusted bytes (structured
+	// values included): they must return
+	add(c19Target{name: "curve.*ScalarMul*Vartime(scalar from bytes)", size: 32, gen: genScalar, anyLength: false,
+		try: func(c *c19Ctx, prev, b []byte) c19Res {
+			s, err := scalar.NewFromBits(b)
+			if err != nil {
+				return c19Res{}
+			}
+			t2, _ := scalar.NewFromBits(prev)
+			P := curve.EIGHT_TORSION[3]
+			var o1, o2, o3, o4 curve.EdwardsPoint
+			o1.TripleScalarMulBasepointVartime(s, P, t2, curve.ED25519_BASEPOINT_POINT)
+			o2.TripleScalarMulBasepointVartime(t2, curve.ED25519_BASEPOINT_POINT, s, P)
+			o3.DoubleScalarMulBasepointVartime(s, curve.ED25519_BASEPOINT_POINT, t2)
+			ep := curve.NewExpandedEdwardsPoint(curve.ED25519_BASEPOINT_POINT)
+			o4.ExpandedTripleScalarMulBasepointVartime(s, ep, t2, P)
+			var r1 curve.RistrettoPoint
+			r1.TripleScalarMulBasepointVartime(s, curve.RISTRETTO_BASEPOINT_POINT, t2, curve.RISTRETTO_BASEPOINT_POINT)
+			_ = s.NonAdjacentForm(5)
+			return c19Res{ok: true}
+		}})
+	// the trivial signature (R = identity, S = 0) under presets that allow small-order keys: it verifies
+	// for a small-order key; a wrong-length key must be refused, not padded or truncated
+	for _, pi := range []int{2, 3} {
+		o := &ed25519.Options{Verify: mixPresets[pi]}
+		for _, force := range []bool{false, true} {
+			force := force
+			add(c19Target{name: fmt.Sprintf("ed25519.BatchVerifier[preset%d, forceNoExpansion=%v](small-order public key, trivial signature)", pi, force), size: 32,
+				gen: func(c *c19Ctx) []byte {
+					c.aux["msg"] = c.g.Msg()
+					triv := make([]byte, 64)
+					triv[0] = 1
+					c.aux["sig"] = triv
+					return edBytes(curve.EIGHT_TORSION[c.g.T.W(8)])
+				},
+				try: func(c *c19Ctx, prev, b []byte) c19Res {
+					v := ed25519.NewBatchVerifier()
+					if force {
+						v.ForceNoPublicKeyExpansion()
+					}
+					v.AddWithOptions(b, c.aux["msg"], c.aux["sig"], o)
+					cv := cache.NewVerifier(cache.NewLRUCache(1))
+					cv.AddWithOptions(v, b, c.aux["msg"], c.aux["sig"], o)
+					bo := v.VerifyBatchOnly(det())
+					_, res := v.Verify(det())
+					if len(res) != 2 || res[0] != res[1] || bo != res[0] {
+						return c19Res{ok: len(res) > 0 && res[0], bad: "direct, cached and batch-only results of one entry disagree"}
+					}
+					return c19Res{ok: res[0]}
+				}})
+		}
+	}
+	// X25519 with a point that is a PREFIX OF THE EXPORTED Basepoint slice (same memory): the
+	// pointer-identity fast path must not run before the length check
+	add(c19Target{name: "x25519.X25519(point aliasing the exported Basepoint)", size: 32,
+		gen: func(c *c19Ctx) []byte { c.aux["scalar"] = c.g.Bytes(32); return clone(x25519.Basepoint) },
+		try: func(c *c19Ctx, prev, b []byte) c19Res {
+			p := b
+			if len(b) >= 1 && len(b) <= 32 && bytes.Equal(b, x25519.Basepoint[:len(b)]) {
+				p = x25519.Basepoint[:len(b)] // the very memory of the global, as a caller slicing it has
+			}
+			out, err := x25519.X25519(c.aux["scalar"], p)
+			if err != nil && out != nil {
+				return c19Res{bad: "output returned with error"}
+			}
+			return c19Res{ok: err == nil}
+		}})
 	// pre-hashed verification: the message is a 64-byte digest; any other length is a documented panic of
 	// single verification and an invalid entry in a batch
 	add(c19Target{name: "ed25519.VerifyWithOptions[ph](message digest)", size: 64,
